@@ -124,7 +124,8 @@ def gen(r):
         flags.add("odd")
     for _ in range(n):
         k = r.weighted([(5, "open"), (4, "change"), (2, "close"), (10, "posreq"), (4, "docreq"), (2, "action"),
-                        (1, "unknown_req"), (1, "unknown_note"), (2, "malformed"), (1, "reinit"), (1, "badparams")])
+                        (1, "unknown_req"), (1, "unknown_note"), (2, "malformed"), (1, "reinit"), (1, "badparams"),
+                        (1, "note_with_id")])
         if k == "open":
             uri = r.choice(uris)
             text = gen_doc(r)
@@ -186,6 +187,24 @@ def gen(r):
         elif k == "unknown_note":
             msgs.append({"kind": "note", "msg": {"jsonrpc": "2.0", "method": r.choice(
                 ["$/cancelRequest", "workspace/didChangeConfiguration", "nope/note", "$/setTrace"]), "params": {"id": 1}}})
+        elif k == "note_with_id":
+            # a message with an id is a request, whatever its method: the client waits for a response
+            flags.add("odd")
+            m = r.choice(["initialized", "textDocument/didOpen", "textDocument/didChange", "textDocument/didClose"])
+            uri = r.choice(uris)
+            params = {}
+            if m == "textDocument/didOpen":
+                text = gen_doc(r)
+                docs[uri] = text
+                params = {"textDocument": {"uri": uri, "languageId": "garden", "version": 1, "text": text}}
+            elif m == "textDocument/didChange":
+                text = gen_doc(r)
+                docs[uri] = text
+                params = {"textDocument": {"uri": uri, "version": 2}, "contentChanges": [{"text": text}]}
+            elif m == "textDocument/didClose":
+                docs.pop(uri, None)
+                params = {"textDocument": {"uri": uri}}
+            msgs.append({"kind": "req", "msg": {"jsonrpc": "2.0", "id": rid(), "method": m, "params": params}})
         elif k == "malformed":
             flags.add("odd")
             msgs.append({"kind": "raw", "body": r.choice(["{", "not json", "[]", "null", "{\"jsonrpc\": \"2.0\"}", "42",
